@@ -27,6 +27,12 @@
 //	                                            during the race) and the final snapshot. The model accepts the line iff some
 //	                                            sequential order of the atomic sub-operations yields exactly <observed>
 //	    -> lin <observed>                       (model: "nolin ..." when no linearisation exists)
+//	addrace <store D> ; <store E> => <observed> the deadline of D fires while Store(D) is inside deadliner.Add(D): the driver's
+//	                                            deadliner decides its answer, then declares D expired, queues it on C(), starts
+//	                                            the real Store(E) in a goroutine and waits up to 20 ms for it before returning.
+//	                                            With db.mu held during Add the second Store blocks and runs afterwards, and
+//	                                            the first Store deletes D's data in its own expiry loop. The model outcome is
+//	                                            that of `store D; expire D; store E`: nothing of D is left or served.
 //
 // ty: att pro agg con bld oth. entry tokens:
 //
@@ -74,11 +80,14 @@ type scriptDL struct {
 	ch      chan core.Duty
 	last    core.DeadlineStatus
 	adds    int
+	// addrace: what happens inside the next Add(hookDuty), after its answer has been decided
+	hookArmed bool
+	hookDuty  core.Duty
+	hookFn    func()
 }
 
 func (d *scriptDL) Add(duty core.Duty) core.DeadlineStatus {
 	d.mu.Lock()
-	defer d.mu.Unlock()
 	d.adds++
 	switch {
 	case d.exempt:
@@ -88,7 +97,17 @@ func (d *scriptDL) Add(duty core.Duty) core.DeadlineStatus {
 	default:
 		d.last = core.DeadlineScheduled
 	}
-	return d.last
+	st := d.last
+	var fn func()
+	if d.hookArmed && duty == d.hookDuty {
+		d.hookArmed = false
+		fn = d.hookFn
+	}
+	d.mu.Unlock()
+	if fn != nil {
+		fn() // "addrace": the duty's deadline fires right after this answer was decided
+	}
+	return st
 }
 
 func (d *scriptDL) C() <-chan core.Duty { return d.ch }
@@ -1264,6 +1283,10 @@ func (e *episode) doRace(run *hx.Run, f []string) (string, string) {
 	if len(subs) < 1 || len(subs) > 3 {
 		panic("bad race op")
 	}
+	hook := f[0] == "addrace"
+	if hook && (len(subs) != 2 || subs[0].kind != "store" || subs[1].kind != "store") {
+		panic("bad addrace op")
+	}
 	num := func(sb *rsub, i int) uint64 {
 		if i >= len(sb.f) {
 			panic("short race sub-op")
@@ -1334,7 +1357,52 @@ func (e *episode) doRace(run *hx.Run, f []string) (string, string) {
 	}
 
 	start := make(chan struct{})
+	var hookD core.Duty
+	hookFired, hookPreExpired := false, false
+	if hook {
+		// the second Store is released from inside deadliner.Add(D) of the first one
+		hookD = core.Duty{Slot: subs[0].slot, Type: dutyTypes[subs[0].ty]}
+		hookPreExpired = e.dl.expired[hookD]
+		hookStart := make(chan struct{})
+		var once sync.Once
+		e.dl.mu.Lock()
+		e.dl.hookArmed, e.dl.hookDuty = true, hookD
+		e.dl.hookFn = func() {
+			e.dl.mu.Lock()
+			e.dl.expired[hookD] = true
+			e.dl.mu.Unlock()
+			e.dl.ch <- hookD
+			hookFired = true
+			once.Do(func() { close(hookStart) })
+			select {
+			case <-subs[1].done:
+			case <-time.After(20 * time.Millisecond):
+			}
+		}
+		e.dl.mu.Unlock()
+		go func() {
+			subs[0].err = e.db.Store(context.Background(), hookD, subs[0].set)
+			close(subs[0].done)
+		}()
+		go func() {
+			<-hookStart
+			subs[1].err = e.db.Store(context.Background(), core.Duty{Slot: subs[1].slot, Type: dutyTypes[subs[1].ty]}, subs[1].set)
+			close(subs[1].done)
+		}()
+		select {
+		case <-subs[0].done:
+		case <-time.After(waitMax):
+			panic("addrace: first Store did not return")
+		}
+		once.Do(func() { close(hookStart) }) // Add(D) was never called
+		e.dl.mu.Lock()
+		e.dl.hookArmed = false
+		e.dl.mu.Unlock()
+	}
 	for _, sb := range subs {
+		if hook {
+			break
+		}
 		sb := sb
 		switch sb.kind {
 		case "store":
@@ -1374,6 +1442,10 @@ func (e *episode) doRace(run *hx.Run, f []string) (string, string) {
 		case <-time.After(waitMax):
 			panic("race sub-operation did not return: " + strings.Join(sb.f, " "))
 		}
+	}
+	if hookFired {
+		queued = append(queued, hookD)
+		e.queued = append(e.queued, hookD)
 	}
 	// queries whose cancellation raced: they have returned, with a value or with the context error
 	var answered []string
@@ -1544,6 +1616,9 @@ func (e *episode) doRace(run *hx.Run, f []string) (string, string) {
 		run.Violate("dutydb:deadliner_add_calls", fmt.Sprintf("%d racing Stores called deadliner.Add %d times", len(stores), nadds))
 	}
 	for _, sb := range stores {
+		if hook && sb == subs[0] && !hookPreExpired {
+			continue // its Add was answered before the deadline fired
+		}
 		if e.dl.expired[core.Duty{Slot: sb.slot, Type: dutyTypes[sb.ty]}] && sb.res != "err:expired" {
 			run.Violate("dutydb:expired_store_accepted", fmt.Sprintf("racing Store for expired duty %s returned %s", sb.dstr, sb.res))
 		}
@@ -1580,7 +1655,9 @@ func (e *episode) doRace(run *hx.Run, f []string) (string, string) {
 				e.writer[k] = d
 			}
 			if kd := keyDuty(k); e.dutyExpired(kd) {
-				if kd == d {
+				if hook && hookFired && !hookPreExpired && kd == subs[0].dstr && kd == d {
+					// judged below (expired_duty_data_served_after_race)
+				} else if kd == d {
 					run.Violate("dutydb:expired_store_accepted", fmt.Sprintf("racing Store %s inserted %s although the duty is expired", d, k))
 				} else {
 					run.Violate("dutydb:expired_duty_data_stored_cross_slot", fmt.Sprintf("racing Store under duty %s inserted %s=%s, which belongs to the expired duty %s", d, k, v, kd))
@@ -1591,6 +1668,32 @@ func (e *episode) doRace(run *hx.Run, f []string) (string, string) {
 			e.seen[k] = map[string]bool{}
 		}
 		e.seen[k][v] = true
+	}
+	if hook && hookFired {
+		// D was reported expired while Store(D) was running; once both calls have returned and D has been consumed
+		// from C(), nothing that Store(D) supplied for D's own keys may be left (whatever the lock placement)
+		consumed := true
+		for _, d := range e.queued {
+			if d == hookD {
+				consumed = false
+			}
+		}
+		if consumed {
+			for _, en := range subs[0].ordered[:subs[0].nVisited] {
+				okSlot := true
+				switch en.kind {
+				case 'A':
+					okSlot = en.f[1] == hookD.Slot && en.f[6] == hookD.Slot
+				case 'P', 'G':
+					okSlot = en.f[0] == hookD.Slot
+				}
+				for _, w := range en.writes() {
+					if v, is := post[w.key]; is && v == w.val && okSlot && keyDuty(w.key) == subs[0].dstr && !subs[1].supplied[w.key][v] {
+						run.Violate("dutydb:expired_duty_data_served_after_race", fmt.Sprintf("duty %s expired during Store(%s) and was consumed from C(), but %s=%s is still stored and served", subs[0].dstr, subs[0].dstr, w.key, v))
+					}
+				}
+			}
+		}
 	}
 	for k, vs := range extra {
 		if _, was := pre[k]; !was {
@@ -1737,6 +1840,10 @@ func (e *episode) doRace(run *hx.Run, f []string) (string, string) {
 		run.Count("race:resolved_some")
 	}
 	run.Case("race:" + shape + ":" + strings.Join(results, ","))
+	if hook {
+		run.Count("addrace:" + subs[0].ty + ":" + strings.Join(results, ","))
+		return "addrace " + strings.Join(lines, " ; ") + " => " + observed, "lin " + observed
+	}
 	return "race " + strings.Join(lines, " ; ") + " => " + observed, "lin " + observed
 }
 
@@ -1811,7 +1918,7 @@ func main() {
 			run.Op(op, ep.doExpire(run, f[1], n(2), n(3) == 1))
 		case "pubkey":
 			run.Op(op, ep.doPubkey(run, n(1), n(2), n(3)))
-		case "race":
+		case "race", "addrace":
 			line, out := ep.doRace(run, f)
 			run.Op(line, out)
 		default:
@@ -1832,6 +1939,39 @@ func main() {
 	// fix(es); tell the model. Default: the model's own default (Driver/DutyDB.lean `defaultCfg`).
 	if c := os.Getenv("VERIF_C06_CFG"); len(c) == 2 {
 		exec(fmt.Sprintf("cfg %c %c", c[0], c[1]))
+	}
+	// systematic part: for every duty type, the deadline of D fires while Store(D) is inside deadliner.Add(D)
+	// (see addrace): nothing of D may be left or served afterwards
+	exec("new")
+	sysEntry := func(ty string, slot, id uint64) string {
+		switch ty {
+		case "att":
+			return fmt.Sprintf("A:%d:%d:0:1:1:1:%d:%d:%d", id, slot, slot, id, id)
+		case "pro":
+			return fmt.Sprintf("P:%d:%d:0", slot, id)
+		case "agg":
+			return fmt.Sprintf("G:%d:1:%d:1", slot, id)
+		default:
+			return fmt.Sprintf("C:%d.%d.1.1", slot, id)
+		}
+	}
+	for i, ty := range []string{"att", "pro", "agg", "con"} {
+		if i > 0 {
+			exec("new")
+		}
+		other := []string{"pro", "con", "att", "agg"}[i]
+		for v, ety := range []string{ty, other} {
+			dslot := uint64(7 + 2*v) // 7, then 9
+			en, _ := parseEntry(sysEntry(ty, dslot, 1))
+			ws := en.writes()
+			q := keyOp(ws[len(ws)-1].key)
+			exec("await " + strings.Join(q, " "))
+			exec(fmt.Sprintf("addrace store %s %d a %s ; store %s 8 a %s", ty, dslot, sysEntry(ty, dslot, 1), ety, sysEntry(ety, 8, uint64(2+v))))
+			exec("await " + strings.Join(q, " "))
+			if ty == "att" {
+				exec(fmt.Sprintf("pubkey %d 1 1", dslot))
+			}
+		}
 	}
 	rng := hx.NewRng(a.Seed)
 	slots := []uint64{7, 8, 9}
@@ -2096,6 +2236,18 @@ func main() {
 							}
 						}
 						exec("race " + strings.Join(subs, " ; "))
+						continue
+					}
+				}
+				if rng.Chance(1, 40) { // the deadline of the first Store's duty fires inside its deadliner.Add
+					s2 := live()
+					if s2 != dslot {
+						e1, e2 := genEntry(entryKind[ty], dslot, ty), genEntry(entryKind[ty], s2, ty)
+						for _, w := range e1.writes() {
+							keys = append(keys, keyOp(w.key))
+						}
+						expiredOf[ty] = append(expiredOf[ty], dslot)
+						exec(fmt.Sprintf("addrace store %s %d a %s ; store %s %d a %s", ty, dslot, e1.token(), ty, s2, e2.token()))
 						continue
 					}
 				}
